@@ -72,7 +72,8 @@ def composeinfo_old(sym, layout, ctype, layered, with_label, stale=False):
     date = sym.str("date", 8, minlen=8, alphabet="digits")
     respin = sym.int("respin", 0, 9999)
     if layout == "0.0-0.2":
-        cid = "Prod-1.0-" + date + SUFFIX[ctype] + "." + str(respin)
+        # the product version inside the id may itself contain long digit runs (a date-versioned product)
+        cid = "Prod-" + sym.str("id_version", 9, minlen=1, alphabet=["0-9", "."]) + "-" + date + SUFFIX[ctype] + "." + str(respin)
         compose = {"id": cid, "type": ctype}
         if stale:
             compose["type"] = sym.one_of("stale_type", COMPOSE_TYPES)
